@@ -257,9 +257,25 @@ func c17(c *Ctx) {
 	}
 	R.Min("R17.3", "write transactions that can grow a limited quantity", m, 8)
 
+	// helpers that return nothing but the verdict of limit checks
+	limitHelpers := map[*ssa.Function]bool{}
+	for _, g := range c.funcsInPkg("internal/state", "internal/backend") {
+		if g.Parent() != nil || g.Signature.Results().Len() != 1 || g.Signature.Results().At(0).Type().String() != "error" {
+			continue
+		}
+		for _, cs := range engine.Calls(g) {
+			if isLimitCheck(cs, "CheckMailBoxCount", "CheckMailBoxMessageCount", "CheckUIDCount", "CheckUIDValidity") {
+				limitHelpers[g] = true
+			}
+		}
+	}
 	k := c.errorsPropagated("R17.2", []string{"internal/state", "internal/backend"}, func(cs engine.CallSite) (string, bool) {
 		if isLimitCheck(cs, "CheckMailBoxCount", "CheckMailBoxMessageCount", "CheckUIDCount", "CheckUIDValidity") {
 			return "limits." + engine.ShortName(cs.Common().StaticCallee()), true
+		}
+		// a helper of the package whose only result is the error of such checks (checkMailboxHasRoom, ...)
+		if sc := cs.Common().StaticCallee(); sc != nil && limitHelpers[sc] {
+			return engine.ShortName(sc), true
 		}
 		return "", false
 	}, "a refused operation would go ahead anyway")
